@@ -115,6 +115,19 @@ def _replay(job, phase):
     r0 = rng_hash()
     last_solution = None
     contradicted = False
+    # every other history hands a set that is used several times as THE SAME constraint objects (a tuple the user keeps
+    # around), the others write it afresh for every use
+    reuse_sets = sum(len(h['act']) + len(str(h['args'])) for h in hist) % 2 == 1
+    set_objects = {}
+
+    def set_items(S):
+        key = tuple(S)
+        if not reuse_sets:
+            return item_constraints(rso, z, [] if S == ['noset'] else S)
+        if key not in set_objects:
+            set_objects[key] = item_constraints(rso, z, [] if S == ['noset'] else S)
+        return set_objects[key]
+
     for si, step in enumerate(hist):
         act, args, expect = step['act'], step['args'], step['expect']
         phase[0] = '%s@%d' % (act, si)
@@ -125,7 +138,7 @@ def _replay(job, phase):
                 cons[k] = (t[k - 1] >= user_a[k] @ z)
             elif act == 'forall':
                 k, S = args
-                its = item_constraints(rso, z, [] if S == ['noset'] else S)
+                its = set_items(S)
                 cons[k] = cons[k].forall(its) if si % 2 else cons[k].forall(*its)
             elif act == 'st':
                 m.st(cons[args[0]])
@@ -135,7 +148,7 @@ def _replay(job, phase):
                 if kind == 'min':
                     m.min(o)
                 else:
-                    its = item_constraints(rso, z, [] if S == ['noset'] else S)
+                    its = set_items(S)
                     m.minmax(o, its) if si % 2 else m.minmax(o, *its)
             elif act in ('do_math', 'do_math_dual'):
                 primal = act == 'do_math'
